@@ -5,6 +5,7 @@ _COMMON = [
 SPEC = dict(
     harness=['h_seq.c'],
     level='exploration',
+    memcheck_cases={'thorough': 1600},
     rule='seeded histories of 30-80 operations on two vectors or two fixed buffers (element sizes 0,1,2,3,4,7,8,12,16,24,33; buffer capacities 0..40): '
          'push/pull at both ends, insert, remove, store (with and without copy callback), erase (with and without destructor), setn, setm, setz, sort, '
          'push_fore+sort_fore, push_back+sort_back, push_sort, search, whole-vector swap, at/of/top/end/foreach; indices and counts drawn from explicit '
